@@ -12,9 +12,38 @@ def run(rep, tier, seed):
                        'contracts): NamespaceManager.add / dictionary_set refuse (ValueError) exactly for a sibling that owns the name or '
                        'identifier or for an illegal EDIF identifier and then leave every table unchanged, otherwise record the element; '
                        'remove / dictionary_delete / dictionary_pop never refuse and drop exactly the element\'s entry; lookup returns the entry of '
-                       'the parent\'s table.  The history-level statement (tables agree with a scan of the children after every API call, for '
+                       'the parent\'s table; lemmas over these contracts (P): each hook carries the invariant "every table entry is a child carrying that '
+                       'name / identifier and every named child is an entry" from before an announcement to after it, refusals coincide with a real '
+                       'duplicate among the announced siblings, sibling names are unique; obligations at every announcement point of the IR mutators (P): '
+                       'additions concern parentless elements, removals name the current parent, element data are not mid-change.  The history-level statement (tables agree with a scan of the children after every API call, for '
                        'hand-built, parsed and cloned netlists, policy switches included) is decided by the bounded stand-in only.')
     failed = _pv.run_suite(rep, PID, 'ns', tier)
+    # lemmas over the hook contracts: each hook carries "tables agree with a scan of the announced children" across its announcement
+    import subprocess, sys, json, os
+    from vlib.report import VERIF, REPO
+    env = dict(os.environ); env['VERIF_REPO'] = REPO
+    try:
+        pr = subprocess.run([sys.executable, '-B', os.path.join(VERIF, 'pyvc', 'verify.py'), '--lemmas', 'ns', '--json'], capture_output=True, text=True,
+                            timeout=900, env=env)
+        lem = json.loads(pr.stdout.split('@@JSON@@')[-1])
+    except Exception as e:
+        lem = []; rep.error('lemma run failed: %r' % (e,))
+    if not lem: rep.error('zero lemmas generated for C10')
+    for o in lem:
+        rep.p(o['name'], o['status'], o.get('backend') or 'z3', o['time_s'], 'lemma over the contracts of specs/ns.py', o.get('detail'))
+        if o['status'] == 'failed': failed.append(('specs/ns.py lemmas', o))
+    # obligations at the announcement points of the IR mutators (same symbolic execution as C01/C02/C14/C19; cached per source hash)
+    from props import _irp
+    d = _irp.ir_proof(tier)
+    n_ann = 0
+    for r in d['functions']:
+        for o in r['results']:
+            if o['name'].startswith('C10/'):
+                n_ann += 1
+                rep.functions.setdefault(r['function'], r.get('sha', '?'))
+                rep.p(o['name'], o['status'], o.get('backend') or 'z3', o['time_s'], r['function'], o.get('detail'))
+                if o['status'] == 'failed': failed.append((r['function'], o))
+    if n_ann == 0: rep.error('zero announcement obligations generated for C10')
     _qb.run(rep, PID, tier, seed)
     rep.explanation = expl
     hit = set(v['key'] for v in rep.violations)
@@ -31,7 +60,9 @@ def run(rep, tier, seed):
         'policy switching (dictionary_set/delete/pop of ".NS", apply_namespace, drop_namespace, is_compliant work-lists) is outside the proved part: '
         'NamespaceManager.add is proved for a child that carries the same policy as its parent; an element\'s ".NS" names a registered policy',
         'WeakKeyDictionary is modelled as a dictionary (no collection of dead parents)',
-        'composition of the hook contracts with the IR mutators into the history-level invariant is not discharged (bounded tier)']
+        'the composition argument itself is on paper (DESIGN.md 0.2/C10): hook contracts + lemmas + announcement obligations + C19 cover/in-vain + C14 frame '
+        'give the history-level invariant for single-policy histories; it is not machine-checked as one theorem, and create_* hooks / policy switches / clone '
+        'are covered by the bounded tier only']
 
 
 def replay(path):
